@@ -162,6 +162,23 @@ pub fn run(out: &mut dyn Write, rng: &mut Rng, n: usize, so: &str) {
         calls += ops.len() as u64;
         line(out, &api, &ops);
     }
+    // scripted: a proposal obtained in one position must not be honoured after the board was set to another position
+    // (evaluate on a position with a single legal move, set_board elsewhere, submit that move where it is illegal / legal)
+    for (fa, mv, fb) in [
+        ("1r5k/8/8/8/8/8/8/K7 w - - 0 1", "0.8.-", "6r1/8/8/8/8/1k6/7P/K7 w - - 0 1"),
+        ("1R5K/8/8/8/8/8/8/k7 b - - 0 1", "0.8.-", "6R1/8/8/8/8/1K6/7p/k7 b - - 0 1"),
+        ("1r5k/8/8/8/8/8/8/K7 w - - 0 1", "0.8.-", "7k/8/8/8/8/8/8/K7 w - - 0 1"),
+        ("k7/8/8/8/8/8/8/K6r w - - 0 1", "0.8.-", "k7/8/8/8/8/8/1r6/K7 w - - 0 1"),
+    ] {
+        for k in [0u64, 3, 40] {
+            let ops: Vec<String> = vec![
+                format!("s{}", fa.replace(' ', "_")), format!("e{k}"), format!("s{}", fb.replace(' ', "_")), format!("m{mv}"), "b".into(),
+                format!("e{k}"), format!("m{mv}"), "b".into(),
+            ];
+            calls += ops.len() as u64;
+            line(out, &api, &ops);
+        }
+    }
     // one long shuffle: every position of a 4-ply knight cycle recurs 300 times (u8 counter boundary at 256)
     if std::env::var("VERIF_SEED").map(|s| s.ends_with('1') || s.len() > 6).unwrap_or(true) {
         let mut ops: Vec<String> = Vec::new();
